@@ -46,6 +46,13 @@ def norm_max(c):
     return c
 
 
+def _same_tokens(a, b):
+    """equality of canonical strings up to the order of commutative operands (the strings were built with different atom names,
+    so their operands may be sorted differently): same wrapper, same multiset of atoms and operators"""
+    tok = lambda x: sorted(re.findall(r'[A-Za-z_$][\w:.$]*|[-+*/%]|\d+', x))
+    return tok(a) == tok(b)
+
+
 def check_small_stride(run, db):
     ct = 'detail::small_free_memory_list'
     fns = {(f.short, len(f.params)): f for f in db.find(cls_t=ct)}
@@ -100,7 +107,7 @@ def check_small_stride(run, db):
         want = x_ins.replace('this.node_size_', '$node_size')
         if fac is None:
             run.broke('min_block_size of the small list has an unrecognised form: %s' % r)
-        elif fac == want:
+        elif _same_tokens(fac, want):
             run.ok('R-TERM.stride', inst + ' min_block_size', mb.loc, 'per-chunk factor %s' % fac)
         else:
             run.violation('R-TERM.stride', inst + ' min_block_size', mb.loc,
